@@ -97,6 +97,8 @@ type recModel struct {
 	nNodes int
 	// stateless: the same node and weights without initial_h / initial_c inputs
 	stateless ModelSpec
+	// halfTwin[k] (LSTM only): the same node and weights with only initial_h (k = 0) or only initial_c (k = 1) absent
+	halfTwin [2]ModelSpec
 }
 
 func drawRecModel(r *rng.R, kind string) recModel {
@@ -134,7 +136,31 @@ func drawRecModel(r *rng.R, kind string) recModel {
 			e2.Model.Inputs[i].Shape = []int64{0, 0, int64(cfg.Input)}
 		}
 	}
-	rm := recModel{cfg: cfg, xName: "a0", hName: "a5", nNodes: len(e.Model.Nodes)}
+	var half [2]ModelSpec
+	if kind == "LSTM" && len(oc.Operands) > 6 {
+		for k := 0; k < 2; k++ {
+			oc3 := oc
+			oc3.Operands = append([]corpus.Operand{}, oc.Operands...)
+			oc3.Operands[5+k] = corpus.Operand{BatchAxis: -1}
+			for len(oc3.Operands) > 3 && oc3.Operands[len(oc3.Operands)-1].V == nil {
+				oc3.Operands = oc3.Operands[:len(oc3.Operands)-1]
+			}
+			e3 := corpus.Bind(fmt.Sprintf("c06/%s/half%d", kind, k), []corpus.OpCase{oc3}, binds, true)
+			for i := range e3.Model.Inputs {
+				switch e3.Model.Inputs[i].Name {
+				case "a0":
+					e3.Model.Inputs[i].Shape = []int64{0, 0, int64(cfg.Input)}
+				case "a5", "a6":
+					e3.Model.Inputs[i].Shape = []int64{1, 0, int64(cfg.Hidden)}
+				}
+			}
+			hb := e3.Model.Bytes()
+			hh := fnv.New64a()
+			hh.Write(hb)
+			half[k] = ModelSpec{Name: fmt.Sprintf("c06/half-twin%d/%s#%016x", k, cfg.String(), hh.Sum64()), Bytes: hb, Ops: []string{kind}}
+		}
+	}
+	rm := recModel{cfg: cfg, xName: "a0", hName: "a5", nNodes: len(e.Model.Nodes), halfTwin: half}
 	if kind == "LSTM" {
 		rm.cName = "a6"
 	}
@@ -446,6 +472,32 @@ func drawWorld06(r *rng.R) *Case {
 				sess.Config += " stateless-start"
 				pieces[0].Model = twin
 				pieces[0].Inputs = map[string]*val.V{rm.xName: pieces[0].Inputs[rm.xName]}
+				if k := len(whole[rm.xName].Bits) % 2; rm.halfTwin[k].Bytes != nil && cuts[0]%3 != 0 && whole[rm.hName] != nil && whole[rm.cName] != nil {
+					// half-stateless start (wave 17, C06-s32): exactly one of the two LSTM states is absent in the first
+					// piece (half twin), while the whole-sequence reference runs on the model with both state inputs and
+					// spells the absent one as explicit zeros - ONNX defines an absent initial state as the zero state.
+					// Chosen from values already drawn: no further draw, every other world stays what it was.
+					absent, present, twinPresent := rm.hName, rm.cName, "a6"
+					if k == 1 {
+						absent, present, twinPresent = rm.cName, rm.hName, "a5"
+					}
+					ht := -1
+					for j, ms := range c.World.Models {
+						if ms.Name == rm.halfTwin[k].Name {
+							ht = j
+						}
+					}
+					if ht < 0 {
+						c.World.Models = append(c.World.Models, rm.halfTwin[k])
+						ht = len(c.World.Models) - 1
+					}
+					zero := &val.V{DT: whole[absent].DT, Shape: append([]int{}, whole[absent].Shape...), Bits: make([]uint64, len(whole[absent].Bits))}
+					sess.WholeModel = 0
+					sess.Whole = map[string]*val.V{rm.xName: whole[rm.xName], absent: zero, present: whole[present]}
+					sess.Config += " half-stateless-start:" + absent + "-absent"
+					pieces[0].Model = ht
+					pieces[0].Inputs = map[string]*val.V{rm.xName: pieces[0].Inputs[rm.xName], twinPresent: whole[present]}
+				}
 			}
 			prev := -1
 			for _, p := range pieces {
